@@ -111,11 +111,11 @@ func c11MalformedCases(rng *rand.Rand, n int) []c11Case {
 		func() mal { return mal{"order without operand", fmt.Sprintf("select %s from t order by", f())} },
 		func() mal { return mal{"group without operand", fmt.Sprintf("select %s from t group by", f())} },
 		func() mal {
-			return mal{"non-numeric limit", fmt.Sprintf("select %s from t limit %s", f(), []string{"ten", "1.5", "1e3", "0x10", "--1"}[rng.Intn(5)])}
+			return mal{"non-numeric limit", fmt.Sprintf("select %s from t limit %s", f(), []string{"ten", "1.5", "1e3", "0x10", "--1", "0b11", "0o17", "1_000", "0x1f"}[rng.Intn(9)])}
 		},
 		func() mal { return mal{"limit without operand", fmt.Sprintf("select %s from t limit", f())} },
 		func() mal {
-			return mal{"non-numeric interval", fmt.Sprintf("select %s from t interval %s", f(), []string{"soon", "2.5", "1s", "5m"}[rng.Intn(4)])}
+			return mal{"non-numeric interval", fmt.Sprintf("select %s from t interval %s", f(), []string{"soon", "2.5", "1s", "5m", "0x3c", "0b11", "6_0"}[rng.Intn(7)])}
 		},
 		func() mal { return mal{"set lvalue without $", fmt.Sprintf("select %s from t set foo = %s", f(), f())} },
 		func() mal { return mal{"set without =", fmt.Sprintf("select %s from t set $v %s %s", f(), f(), f())} },
